@@ -454,9 +454,53 @@ def _split_ifexp_stmts(block):
             v = st.value
         elif isinstance(st, ast.Return):
             v = st.value
-        if not isinstance(v, ast.IfExp) or not _call_free(v.test):
+        if v is None:
             continue
-        if isinstance(st, ast.Assign) and _mentions(v.test, st.targets[0].id) and False:
+        if not isinstance(v, ast.IfExp):
+            # a conditional expression nested in displays / operators of an
+            # otherwise call-free value: nothing observable runs before its test
+            cand = None
+            stack = [v]
+            while stack and cand is None:
+                n = stack.pop(0)
+                for ch in ast.iter_child_nodes(n):
+                    if isinstance(ch, ast.IfExp):
+                        cand = ch
+                        break
+                    if isinstance(ch, (ast.Tuple, ast.List, ast.BinOp, ast.Subscript,
+                                       ast.Attribute, ast.Starred, ast.Compare)):
+                        stack.append(ch)
+            if cand is None or not _call_free(cand.test):
+                continue
+            marker = ast.Name(id='__ifexp__', ctx=ast.Load())
+
+            class Sw(ast.NodeTransformer):
+                def __init__(self, new):
+                    self.new = new
+
+                def visit_IfExp(self, node):
+                    return self.new if node is cand else self.generic_visit(node)
+            probe = Sw(marker).visit(clone_keep(v, cand))
+            if not _call_free(probe):
+                continue
+            arms = []
+            for br in (cand.body, cand.orelse):
+                new = clone(st)
+                # locate the clone of cand by position in a fresh walk
+                k = [i for i, n in enumerate(ast.walk(st.value)) if n is cand][0]
+                tgt = list(ast.walk(new.value))[k]
+
+                class Sw2(ast.NodeTransformer):
+                    def visit_IfExp(self, node):
+                        return clone(br) if node is tgt else self.generic_visit(node)
+                new.value = Sw2().visit(new.value)
+                arms.append(new)
+            block[j] = ast.copy_location(ast.If(test=clone(cand.test), body=[arms[0]],
+                                                orelse=[arms[1]]), st)
+            ast.fix_missing_locations(block[j])
+            changed = True
+            continue
+        if not _call_free(v.test):
             continue
         arms = []
         for br in (v.body, v.orelse):
@@ -467,6 +511,28 @@ def _split_ifexp_stmts(block):
                                             orelse=[arms[1]]), st)
         changed = True
     return changed
+
+
+def clone_keep(expr, keep):
+    """a deep copy of expr in which the copy of node `keep` is `keep` itself"""
+    class C(ast.NodeTransformer):
+        def generic_visit(self, node):
+            if node is keep:
+                return node
+            new = type(node)()
+            for f, val in ast.iter_fields(node):
+                if isinstance(val, list):
+                    setattr(new, f, [self.visit(x) if isinstance(x, ast.AST) else x
+                                     for x in val])
+                elif isinstance(val, ast.AST):
+                    setattr(new, f, self.visit(val))
+                else:
+                    setattr(new, f, val)
+            for a in ('lineno', 'col_offset', 'end_lineno', 'end_col_offset'):
+                if hasattr(node, a):
+                    setattr(new, a, getattr(node, a))
+            return new
+    return C().visit(expr)
 
 
 def _is_const(e, v):
@@ -814,6 +880,53 @@ def alpha(node):
     return a.changed
 
 
+def _module_of(func):
+    p = getattr(func, 'parent', None)
+    while p is not None and not isinstance(p, ast.Module):
+        p = getattr(p, 'parent', None)
+    return p
+
+
+class _Positional(ast.NodeTransformer):
+    """f(a, q=b, p=c) for a module-level `def f(x, p, q)` is f(a, c, b)
+    (only keywords that name positional parameters and leave no gap; argument
+    expressions must be call-free when their order changes)"""
+
+    def __init__(self, mod):
+        self.funcs = {st.name: st for st in mod.body if isinstance(st, FUNC)}
+        self.changed = False
+
+    def visit_Call(self, node):
+        self.generic_visit(node)
+        if not node.keywords or not isinstance(node.func, ast.Name):
+            return node
+        f = self.funcs.get(node.func.id)
+        if f is None or any(k.arg is None for k in node.keywords) or \
+                any(isinstance(a, ast.Starred) for a in node.args) or f.args.posonlyargs:
+            return node
+        params = [a.arg for a in f.args.args]
+        kw = {k.arg: k.value for k in node.keywords}
+        if not set(kw) <= set(params):
+            return node
+        args = list(node.args)
+        rest = params[len(args):]
+        take = []
+        for p_ in rest:
+            if p_ in kw:
+                take.append(p_)
+            else:
+                break
+        if set(take) != set(kw):
+            return node
+        in_order = [k.arg for k in node.keywords] == take
+        if not in_order and not all(_call_free(v) for v in kw.values()):
+            return node
+        node.args = args + [kw[p_] for p_ in take]
+        node.keywords = []
+        self.changed = True
+        return node
+
+
 class _Spell(ast.NodeTransformer):
     """[*X] is list(X); (*X,) is tuple(X)"""
     changed = False
@@ -893,6 +1006,13 @@ def normalize(func):
         changed = True
     for st in new.body:
         if alpha(st):
+            changed = True
+    mod_ = _module_of(func)
+    if mod_ is not None:
+        pz = _Positional(mod_)
+        for k, st in enumerate(new.body):
+            new.body[k] = pz.visit(st)
+        if pz.changed:
             changed = True
     sp = _Spell()
     for k, st in enumerate(new.body):
